@@ -215,7 +215,7 @@ private theorem insertKV_last : ∀ {t : Treemap}, KeysSorted t → ∀ {key : N
     simp only [h1, h2, ↓reduceIte, List.dropLast_cons_cons, List.cons_append]
     rw [insertKV_last hs' hl]
 
-theorem push_snd_iff {s : List Nat} (h : Sorted s) (v : Nat) : (Spec.push s v).2 = true ↔ ∀ x ∈ s, x < v := by
+private theorem push_snd_iff {s : List Nat} (h : Sorted s) (v : Nat) : (Spec.push s v).2 = true ↔ ∀ x ∈ s, x < v := by
   unfold Spec.push
   cases hl : s.getLast? with
   | none => have : s = [] := by simpa using hl
@@ -437,5 +437,32 @@ theorem C10_max_partial (K : Kernel32) (t : Treemap) (hw : WF K t) : Treemap.max
     rw [hm] at hmax
     rw [hel, List.getLast?_append, List.getLast?_map, hm]
     simp [Treemap.max?, List.reverse_append, hmax]
+
+/-! ### non-vacuity: a three-partition treemap built through the public API meets the invariant
+
+`Kernel32` itself is instantiated by the coordinator's 32-bit proofs (C01/C07) at merge; here the directory
+lemmas are shown to apply to a concrete value with a concrete 32-bit invariant. -/
+
+def wfEx (b : Bitmap) : Prop := Sorted (Bitmap.elems b) ∧ ∀ x ∈ Bitmap.elems b, x < 4294967296
+private theorem wfEx_elems32 : Elems32 wfEx := ⟨fun _ h => h.1, fun _ h => h.2⟩
+
+/-- `{1, 5, 2^33+3, 2^33+50, 2^34+7}`: partitions 0, 2, 4 (absent partitions in between) -/
+def tEx : Treemap := Treemap.fromIter [1, 5, 8589934595, 8589934642, 17179869191]
+
+def tExLit : Treemap := [(0, [{ key := 0, store := .array [1, 5] }]), (2, [{ key := 0, store := .array [3, 50] }]),
+    (4, [{ key := 0, store := .array [7] }])]
+private theorem tEx_eq : tEx = tExLit := by decide
+
+example : WFd wfEx tEx := by
+  rw [tEx_eq]
+  refine ⟨by decide, ?_⟩
+  intro p hp
+  simp only [tExLit, List.mem_cons, List.not_mem_nil, or_false] at hp
+  rcases hp with rfl | rfl | rfl <;>
+    exact ⟨by decide, ⟨by decide, by decide⟩, by decide⟩
+
+example : elems tEx = [1, 5, 8589934595, 8589934642, 17179869191] := by decide
+/-- the D4 shape on the model: after `insert(2^32)`, `push(5)` is refused -/
+example : (Treemap.push (Treemap.insert [] 4294967296).1 5).2 = false := by decide
 
 end Roaring.C10
